@@ -3,7 +3,7 @@ C08 -- design space graphs behave as persistent values.
 
 E3 on a FAMILY of live DSG objects: starting from the initialised graph, every operation that derives a new graph from ANY live
 object (copy, apply a selection choice with every offered option, apply a connection choice with every valid set, constrain
-choices on a copy, confirmed graph, decode any vector through a processor built on the initial graph) is applied in every order
+choices on a copy, store a design-variable / metric value on a copy, confirmed graph, decode any vector through a processor built on the initial graph) is applied in every order
 up to the depth bound; every live object's complete observation (nodes, edges, feasible, final, next choices, option lists,
 valid connection sets, stored values, constraints, hash) is recorded at creation and re-read after EVERY later operation.
 """
@@ -20,7 +20,7 @@ ASSUMPTIONS = ['the raw attributes of node objects (e.g. deg_list of a grouping 
                'not part of what a graph object reports; degree constraints are observed through the valid connection sets and feasibility',
                'get_taken_single_selection_choices is documented "last call" state and not part of the observation']
 CHUNK = 1
-REQUIRED_FEATURES = {'*': ['op_copy', 'op_sel', 'op_conn', 'op_constrain', 'op_confirmed', 'op_decode', 'grouping_subject']}
+REQUIRED_FEATURES = {'*': ['op_copy', 'op_sel', 'op_conn', 'op_constrain', 'op_confirmed', 'op_decode', 'op_copyset', 'grouping_subject']}
 _TIER = ['quick']
 
 
@@ -44,6 +44,7 @@ def subjects(tier):
     ]
     sp = S('one')
     sp['dv'] = {'D1': dict(anchor='o1', options=2), 'D2': dict(anchor='a', bounds=[0.0, 1.0])}
+    sp['met'] = {'M1': dict(anchor='a', dir=-1, ref=None, type=None)}
     out.append(('dv', sp))
     if tier != 'quick':
         out.append(('mutex', S('mutex')))
@@ -69,6 +70,15 @@ def obs_of(b, g):
     except Exception as e:
         o['hash'] = ('EXC', type(e).__name__)
     return o
+
+
+def _copy_set(g, kind, node, value):
+    g2 = g.copy()
+    if kind == 'dv':
+        g2.set_des_var_value(node, value)
+    else:
+        g2.set_metric_value(node, value)
+    return g2
 
 
 def run_case(case):
@@ -116,6 +126,18 @@ def run_case(case):
                 len({len(g.get_option_nodes(c)) for c in sel[:2]}) == 1:
             for ct in ('LINKED', 'PERMUTATION'):
                 out.append((('constrain', ct), (lambda ct=ct: g.copy().constrain_choices(ChoiceConstraintType[ct], sel[:2]))))
+        # store a value on a COPY (derive op): the copy's stored values must be its own, whatever the source already holds
+        for n in sorted(g.des_var_nodes, key=b.name)[:2]:
+            vals = [0, 1] if n.is_discrete else [float(n.bounds[0]), float(n.bounds[1])]
+            for v in vals:
+                if g.des_var_values.get(n) == v:
+                    continue
+                out.append((('copyset', 'dv', b.name(n), v), (lambda n=n, v=v: _copy_set(g, 'dv', n, v))))
+        for n in sorted(g.metric_nodes, key=b.name)[:1]:
+            for v in (1.0, 2.0):
+                if g.metric_values.get(n) == v:
+                    continue
+                out.append((('copyset', 'met', b.name(n), v), (lambda n=n, v=v: _copy_set(g, 'met', n, v))))
         if idx == 0:
             for enc in ('COMPLETE', 'FAST'):
                 try:
@@ -158,7 +180,7 @@ def run_case(case):
                 if stop[0]:
                     return
                 feats['op_' + {'copy': 'copy', 'confirmed': 'confirmed', 'sel': 'sel', 'conn': 'conn', 'constrain': 'constrain',
-                               'decode': 'decode'}[label[0]]] = 1
+                               'decode': 'decode', 'copyset': 'copyset'}[label[0]]] = 1
                 step = (idx, label)
                 try:
                     new = thunk()
